@@ -3,5 +3,5 @@ CONSTANTS
   MaxLen = 6
   RejectAlias = TRUE
   Emit = TRUE
-INVARIANTS ResolvedInside StagingInside ManifestStagingInside SyncNeverAlias EmitInv
+INVARIANTS ResolvedInside SiblingRejected StagingInside ManifestStagingInside SyncNeverAlias EmitInv
 CHECK_DEADLOCK FALSE
